@@ -1023,6 +1023,16 @@ func (ps *PathSum) branch(s *psState, f *psFrame, x *ssa.If) []*psOutcome {
 		}
 		return ps.exec(s, f)
 	}
+	if v, ok := signDecide(s.preds, atom); ok {
+		i := 1
+		if v != neg {
+			i = 0
+		}
+		if !ps.enter(f, f.block.Succs[i]) {
+			return []*psOutcome{{S: s, Cut: true}}
+		}
+		return ps.exec(s, f)
+	}
 	if ps.decide != nil {
 		if v, ok := ps.decide(atom); ok {
 			s.preds[atom] = v
@@ -1277,4 +1287,71 @@ func isMadeTerm(t string) bool {
 		}
 	}
 	return false
+}
+
+
+// ---- sign reasoning over comparisons of one term with zero ----
+//
+// `diff := a - b; if diff < 0 { diff = -diff }; if diff <= 0 { return }` (an absolute value written out) tests the same
+// term three times; the possible signs of the term (negative / zero / positive) are intersected over the comparisons
+// recorded on the path, so that infeasible combinations are not explored and |x| <= 0 is known to mean x == 0.
+
+var signMask = map[string]int{"<": 1, "<=": 3, ">": 4, ">=": 6, "==": 2, "!=": 5}
+
+// signAtom parses "(T op const(0))"; a leading unary minus on T is folded into the operator.
+func signAtom(atom string) (string, int, bool) {
+	if !strings.HasPrefix(atom, "(") || !strings.HasSuffix(atom, "const(0))") {
+		return "", 0, false
+	}
+	body := atom[1 : len(atom)-len("const(0))")]
+	for _, op := range []string{"<=", ">=", "==", "!=", "<", ">"} {
+		if strings.HasSuffix(body, op) {
+			t := body[:len(body)-len(op)]
+			m := signMask[op]
+			for strings.HasPrefix(t, "-") {
+				t = t[1:]
+				m = (m&1)<<2 | (m & 2) | (m&4)>>2 // mirror negative <-> positive
+			}
+			if t == "" {
+				return "", 0, false
+			}
+			return t, m, true
+		}
+	}
+	return "", 0, false
+}
+
+// signPossible: the signs the term may still have given the comparisons recorded in preds (bit 1 negative, 2 zero, 4 positive).
+func signPossible(preds map[string]bool, term string) int {
+	p := 7
+	for a, v := range preds {
+		t, m, ok := signAtom(a)
+		if !ok || t != term {
+			continue
+		}
+		if v {
+			p &= m
+		} else {
+			p &= ^m & 7
+		}
+	}
+	return p
+}
+
+func signDecide(preds map[string]bool, atom string) (bool, bool) {
+	t, m, ok := signAtom(atom)
+	if !ok {
+		return false, false
+	}
+	p := signPossible(preds, t)
+	if p == 7 {
+		return false, false
+	}
+	if p&m == 0 {
+		return false, true
+	}
+	if p&^m == 0 {
+		return true, true
+	}
+	return false, false
 }
